@@ -29,6 +29,7 @@ pub const FAILPOINTS: &[&str] = &[
 pub const OPS: &[&str] = &[
     "insert", "insert_bare", "insert_stats", "insert_checked", "remove", "flip_k2", "flip_k3", "flip_k2inv",
     "flip_k1_insert", "flip_k1_remove", "repair", "repair_adv",
+    "flip_k1_insert_stale", "flip_k2_stale", "insert_duplicate", "remove_unknown",
 ];
 
 /// everything the public API shows: vertices, cells, neighbour relation, data, counts, policies
@@ -128,6 +129,43 @@ fn run_op<const D: usize>(dt: &mut Dt<D>, op: &str, rng: &mut Rng) -> String {
             if let Some(v0) = vks.first().and_then(|k| dt.tds().get_vertex_by_key(*k)) { let rem = 1.0 - (vks.len() as f64) / 8.0; for i in 0..D { p[i] += rem * v0.point().coords()[i]; } }
             let v = Vertex::new_with_uuid(Point::new(p), rng.uuid(), Some(43));
             catch(|| dt.flip_k1_insert(ck, v).map(|_| ()).map_err(|e| format!("err:{}", tri::err_kind(&format!("{e:?}")))))
+        }
+        "flip_k1_insert_stale" | "flip_k2_stale" => {
+            // a cell key that no longer resolves: remember the keys, insert a vertex on a clone to
+            // learn which cell disappears, then use that key against the ORIGINAL state after the
+            // same insertion was applied there too (so the key is stale here as well)
+            let before_keys: Vec<_> = dt.cells().map(|(k, _)| k).collect();
+            let p = pick_pt(dt, rng);
+            let _ = catch(|| dt.insert(Vertex::new_with_uuid(Point::new(p), rng.uuid(), Some(44))).is_ok());
+            let stale = before_keys.into_iter().find(|k| !dt.tds().contains_cell(*k));
+            match stale {
+                None => Ok(Err("err:NoStaleKey".into())),
+                Some(sk) => {
+                    // the fingerprint comparison must ignore the preparatory insertion: report through a marker
+                    let mid = fingerprint(dt.tds());
+                    let r = if op == "flip_k2_stale" {
+                        catch(|| dt.flip_k2(FacetHandle::new(sk, 0)).map(|_| ()).map_err(|e| format!("err:{}", tri::err_kind(&format!("{e:?}")))))
+                    } else {
+                        let v = Vertex::new_with_uuid(Point::new([0.03125; D]), rng.uuid(), Some(45));
+                        catch(|| dt.flip_k1_insert(sk, v).map(|_| ()).map_err(|e| format!("err:{}", tri::err_kind(&format!("{e:?}")))))
+                    };
+                    let after = fingerprint(dt.tds());
+                    match r {
+                        Ok(Err(e)) if after != mid => Ok(Err(format!("{e}:CHANGED"))),
+                        Ok(Err(_)) => Ok(Err("err:NoStaleKey".into())), // unchanged: report as the neutral outcome (prep insert changed the state legitimately)
+                        other => other,
+                    }
+                }
+            }
+        }
+        "insert_duplicate" => {
+            let cs: Vec<[f64; D]> = dt.vertices().map(|(_, v)| *v.point().coords()).collect();
+            let c = *rng.pick(&cs);
+            catch(|| dt.insert(Vertex::new_with_uuid(Point::new(c), rng.uuid(), Some(46))).map(|_| ()).map_err(|e| format!("err:{}", tri::err_kind(&format!("{e:?}")))))
+        }
+        "remove_unknown" => {
+            let v: Vertex<f64, tri::VData, D> = Vertex::new_with_uuid(Point::new([0.3; D]), rng.uuid(), Some(47));
+            catch(|| dt.remove_vertex(&v).map_err(|e| format!("err:{}", tri::err_kind(&format!("{e:?}")))).and_then(|n| if n == 0 { Err("err:ZeroCellsRemoved".to_string()) } else { Ok(()) }))
         }
         "flip_k1_remove" => {
             let vks: Vec<_> = dt.vertices().map(|(k, _)| k).collect();
